@@ -225,6 +225,12 @@ pub fn wac_binary() -> PathBuf {
 
 /// Runs the shipped `wac` binary in `cwd` with a controlled environment and hash seed.
 pub fn run_wac(cwd: &Path, args: &[String], hash_seed: u64, timeout_s: u64) -> std::io::Result<ChildResult> {
+    run_wac_io(cwd, args, hash_seed, timeout_s, false)
+}
+
+/// `stdout_full`: the child's stdout is a device on which every write fails with ENOSPC
+/// (`/dev/full`) — the "full disk" fault for output that goes to stdout.
+pub fn run_wac_io(cwd: &Path, args: &[String], hash_seed: u64, timeout_s: u64, stdout_full: bool) -> std::io::Result<ChildResult> {
     use std::os::unix::process::ExitStatusExt;
     let mut cmd = Command::new(wac_binary());
     cmd.args(args)
@@ -238,14 +244,20 @@ pub fn run_wac(cwd: &Path, args: &[String], hash_seed: u64, timeout_s: u64) -> s
         .env("LD_PRELOAD", bin_dir().join("getrandom_shim.so"))
         .env("VERIF_HASH_SEED", format!("{hash_seed}"))
         .stdin(Stdio::null())
-        .stdout(Stdio::piped())
         .stderr(Stdio::piped());
+    if stdout_full {
+        cmd.stdout(std::fs::OpenOptions::new().write(true).open("/dev/full")?);
+    } else {
+        cmd.stdout(Stdio::piped());
+    }
     let mut child = cmd.spawn()?;
-    let mut out = child.stdout.take().unwrap();
+    let out = child.stdout.take();
     let mut err = child.stderr.take().unwrap();
     let t_out = std::thread::spawn(move || {
         let mut v = Vec::new();
-        let _ = out.read_to_end(&mut v);
+        if let Some(mut out) = out {
+            let _ = out.read_to_end(&mut v);
+        }
         v
     });
     let t_err = std::thread::spawn(move || {
